@@ -45,6 +45,7 @@ def run(ck):
     ck.rule("C07.R5", "bitmap typestate: every protocol run ends all-clear and delivers iff accepted", floor=100)
     ck.rule("C07.R5s", "effect summaries extracted from MIR match a recognised shape", floor=9)
     ck.rule("C07.R9", "a stateful per-layer filter's verdict does not depend on spans already exited: EnvFilter's per-thread scope stack is pushed and popped under one predicate (as C11.R5)", floor=3)
+    ck.rule("C07.R10", "a per-layer Targets / EnvFilter never publishes a hint below what its own table accepts: DirectiveSet::add keeps max_level an upper bound, also when a directive is replaced (as C08.R4)", floor=1)
     ck.rule("C07.R8", "a filter below a layer that answers `sometimes` is still told about every callsite (pick_interest asks the inner value; as C09.R5)", floor=1)
     ck.rule("C07.R7", "Vec<S> / a Layered tree claim to be per-layer-filtered only if every part is", floor=2)
     ck.rule("C07.R6", "per-layer filter combinators (And/Or/Not/Option) publish sound interests and level hints (as C08.R1/R2)", floor=10)
@@ -66,6 +67,7 @@ def run(ck):
     C09.check_pick_interest(ck, F, rid="C07.R8")
     from rules import C11
     C11.r5(ck, F, rid="C07.R9")
+    C08.directive_add_rule(ck, R, rid="C07.R10")
 
 
 # ------------------------------------------------------------------ R1
